@@ -46,6 +46,17 @@ Theorem C11_tokens : forall ops l,
 Proof. exact tokens_conserved. Qed.
 Print Assumptions C11_tokens.
 
+(* unwind safety of clone: when the clone of an element panics (element type PC of the harness: values ending in ..13), the vector is unchanged
+   and exactly the clones made before the poisoned element are destroyed — what Vec::clone does (instance of C11_refine for the VCloneP step) *)
+Theorem C11_clone_unwind :
+  forall grow, (forall l a c, l + a <= grow l a c) ->
+  forall v, wf v -> existsb poison (abs v) = true ->
+  step grow v VCloneP = Panic (v, ([5; 9]%Z, cloned_before (abs v))).
+Proof.
+  intros g G v W P. cbn [step]. destruct W as (Hl & Hc & Ha). rewrite region_0 by lia. fold (abs v). now rewrite P.
+Qed.
+Print Assumptions C11_clone_unwind.
+
 (* non-vacuity: a concrete well-formed vector with spare capacity, and the std policy
    satisfies the contract *)
 Example C11_wf_example : wf (from_vec 2 [7; 8]%Z) /\ (forall l a c, l + a <= std_grow l a c).
